@@ -2,7 +2,7 @@
    Only ExtrOcamlBasic is used: bool, option, unit, prod, list, sumbool, sumor are mapped to
    the OCaml types; nat, N, Z, positive stay the extracted inductive datatypes. *)
 Require Import ExtrOcamlBasic.
-Require Import Base RW Return Chain Regex Route Tree Router RouteSpec UrlPath Groups Lexer Parser Grammar.
+Require Import Base RW Return Chain Regex Route Tree Router RouteSpec UrlPath Groups Lexer Parser Grammar Inject.
 Extraction Language OCaml.
 Separate Extraction RW.run RW.spec_ok RW.valid_op
   Return.render Return.table Return.apply_wops Return.supported
@@ -12,4 +12,5 @@ Separate Extraction RW.run RW.spec_ok RW.valid_op
   UrlPath.router_url_path UrlPath.fill UrlPath.route_skel' UrlPath.skel_ok UrlPath.pairs_to_map UrlPath.lookup_val UrlPath.brace_free
   Groups.exec Groups.flatten
   Parser.parse Grammar.bnf_parse
+  Inject.value Inject.resolve Inject.apply_fields Inject.register
   RouteSpec.valid RouteSpec.spec_winner RouteSpec.all_flats RouteSpec.derivs.
